@@ -41,6 +41,9 @@ fn main() {
     if args[1] == "__c07_large" {
         std::process::exit(c07::child_main(&args[2], args[3].parse().unwrap_or(1)));
     }
+    if args[1] == "__c16_dense" {
+        std::process::exit(c16::dense_child_main(&args[2]));
+    }
     if args[1] == "__c10_child" {
         std::process::exit(c10::child_main(args[2].parse().unwrap_or(1), args[3].parse().unwrap_or(10), args[4].parse().unwrap_or(1)));
     }
